@@ -174,4 +174,14 @@ var table = []Control{
 		Old: "\treturn string(*sa) == \"\"\n", New: "\treturn len(string(*sa)) <= 1\n"},
 	{Name: "help1-visible-list-aliases", Rule: "HELP-1", File: fCmds,
 		Old: "commands := make([]*Cmd, 0, len(c.commands))", New: "commands := c.commands[:0]"},
+	// ---- obligations added after the third (held-out) seeding round
+	{Name: "fsm1-removal-skipped-when-expanded", Rule: "FSM-1", File: fFsm,
+		Old: "\t\t\tnext := tr.Next\n\t\t\ts.Transitions = removeTransitionAt(idx, s.Transitions)\n\t\t\tif expanded[next] {\n\t\t\t\t// already inlined into s: doing it again would loop forever on cyclic shortcuts\n\t\t\t\treturn true\n\t\t\t}",
+		New: "\t\t\tnext := tr.Next\n\t\t\tif expanded[next] {\n\t\t\t\tcontinue\n\t\t\t}\n\t\t\ts.Transitions = removeTransitionAt(idx, s.Transitions)"},
+	{Name: "par3-constructor-narrows-index", Rule: "PAR-3", File: fOptions,
+		Old: "\t\tindex:   index,\n\t}\n}", New: "\t\tindex:   map[string]*container.Container{},\n\t}\n}"},
+	{Name: "lex4-rep-consumes-four", Rule: "LEX-4", File: fLexer,
+		Old: "\t\t\ttkp(TTRep, \"...\", start)\n\t\t\tpos++\n", New: "\t\t\ttkp(TTRep, \"...\", start)\n\t\t\tpos++\n\t\t\tif pos < eof && usage[pos] == '.' {\n\t\t\t\tpos++\n\t\t\t}\n"},
+	{Name: "lex6-byte-class-arithmetic", Rule: "LEX-6", File: fLexer,
+		Old: "\treturn c >= 'A' && c <= 'Z'\n", New: "\treturn c&0x5f >= 'A' && c&0x5f <= 'Z' && c < 'a'\n"},
 }
